@@ -285,3 +285,67 @@ Theorem C18_segmentation_independent_sax : forall s stream cuts,
   sx_run s (segments stream cuts) = sx_run s [stream].
 Proof. exact c18_segmentation_independent_sax. Qed.
 Print Assumptions C18_segmentation_independent_sax.
+
+(* No octet of an end-of-message delimiter reaches the XML parser: split the whole stream at its delimiters (leftmost,
+   non-overlapping: [frames], which contain no delimiter: C18_frames_clean); then, however the stream is cut into reads,
+   the k-th XML parser consumed a beginning of the k-th frame without its leading white space ([cov]) — all of it when
+   the reply was parsed to its end, less when the handler signalled the switch to DOM parsing or raised, nothing for a
+   reply the DOM parser took from its first octet. *)
+Theorem C18_delimiter_never_parsed :
+  forall (W X : Type) (xnew : W -> X) (xstep : W -> X -> N -> xres X) (xrooted : X -> bool)
+         (dispatch : W -> bool -> bytes -> dres W),
+    (forall w x c x' o, xstep w x c = XOk x' o -> xrooted x = true -> xrooted x' = true) ->
+    (forall w, xrooted (xnew w) = false) ->
+    forall w reads, reads <> [] ->
+      cov (rev (fed (JunosParse.run W X xnew xstep xrooted dispatch (JunosParse.init W X xnew w) reads)))
+          (frames (concat reads)).
+Proof. exact c18_delimiter_never_parsed. Qed.
+Print Assumptions C18_delimiter_never_parsed.
+
+Theorem C18_frames_clean : forall b, Forall (fun p => find_sub Framing10.delim10 p = None) (frames b).
+Proof. exact frames_clean. Qed.
+Print Assumptions C18_frames_clean.
+
+Theorem C18_delimiter_never_parsed_sax : forall w reads, reads <> [] ->
+  cov (rev (fed (sx_run (sx_init w) reads))) (frames (concat reads)).
+Proof. intros. apply c18_delimiter_never_parsed; [exact sx_mono | exact sx_new_unrooted | assumption]. Qed.
+Print Assumptions C18_delimiter_never_parsed_sax.
+
+(* non-vacuity: a machine that echoes what it is given, has its root after two octets, signals the switch on "!" and
+   rejects "?".  The stream: a reply, the delimiter, white space, a reply that makes the parser switch, the delimiter, the
+   beginning of a third reply ending in what may begin a delimiter.  Cut inside both delimiters (and elsewhere) and
+   uncut: the same two messages ("ab" written by the handler, "!cd" by the DOM path), the parsers consumed "ab", "!",
+   "ef" (frames "ab", "  !cd", "ef]"), "]" is held back. *)
+Definition toy_step (w : unit) (x : nat) (c : N) : xres nat :=
+  if N.eqb c 33 then XSwitch [] else if N.eqb c 63 then XErr else XOk (S x) [c].
+Definition toy_rooted (x : nat) : bool := (2 <=? x)%nat.
+Definition toy_run := JunosParse.run unit nat (fun _ => O) toy_step toy_rooted (fun w _ _ => DOk w true).
+Definition toy_init := JunosParse.init unit nat (fun _ => O) tt.
+Definition toy_stream : bytes := L "ab]]>]]>  !cd]]>]]>ef]".
+
+Example C18_ex_segments :
+  segments toy_stream [3; 2; 7; 1; 3]%nat = [L "ab]"; L "]>"; L "]]>  !c"; L "d"; L "]]>"; L "]]>ef]"] /\
+  frames toy_stream = [L "ab"; L "  !cd"; L "ef]"].
+Proof. vm_compute. split; reflexivity. Qed.
+
+Example C18_ex_cut_run :
+  toy_run toy_init (segments toy_stream [3; 2; 7; 1; 3]%nat) =
+  mk tt [(true, L "ab"); (false, L "!cd")] [L "ef"; L "!"; L "ab"] (Run (Sax (L "]") [] 2%nat (L "ef"))) /\
+  toy_run toy_init [toy_stream] = toy_run toy_init (segments toy_stream [3; 2; 7; 1; 3]%nat).
+Proof. vm_compute. split; reflexivity. Qed.
+
+(* the conditions of the theorems hold of the toy machine *)
+Example C18_ex_toy_conditions :
+  (forall w x c x' o, toy_step w x c = XOk x' o -> toy_rooted x = true -> toy_rooted x' = true) /\
+  (forall w : unit, toy_rooted O = false).
+Proof.
+  split; [|reflexivity]. intros w x c x' o H R. unfold toy_step in H.
+  destruct (N.eqb c 33); [discriminate|]. destruct (N.eqb c 63); [discriminate|]. injection H as <- _.
+  unfold toy_rooted in *. apply Nat.leb_le in R. apply Nat.leb_le. lia.
+Qed.
+
+(* the excluded regions are visible: "?" (expat rejects) ends in Stuck WExpat, in every segmentation alike *)
+Example C18_ex_stuck :
+  stat (toy_run toy_init [L "a?b]]>]]>"]) = Stuck WExpat /\
+  toy_run toy_init [L "a?"; L "b]]>]]>"] = toy_run toy_init [L "a?b]]>]]>"].
+Proof. vm_compute. split; reflexivity. Qed.
